@@ -119,6 +119,14 @@ impl AppService {
         }
     }
 
+    /// Replaces the default service that nested services fall back to.
+    ///
+    /// Used by `Scope` so that services registered inside it inherit the scope's (effective)
+    /// default service instead of the one of the enclosing configuration.
+    pub(crate) fn set_default_service(&mut self, default: Rc<BoxedHttpServiceFactory>) {
+        self.default = default;
+    }
+
     /// Returns reference to configuration.
     pub fn config(&self) -> &AppConfig {
         &self.config
